@@ -12,10 +12,11 @@ into real modules and run through RewritingContext.delete_symbol + apply()
 from .c18 import run_tables
 
 CONFIGS = {
+    "replay": ["DelSym_tiny.cfg"],
     "quick": ["DelSym_tab_q.cfg", "DelSym_ver_q.cfg", "DelSym_lat_q.cfg"],
     "thorough": ["DelSym_tab_t.cfg", "DelSym_tab3_t.cfg", "DelSym_ver_t.cfg", "DelSym_lat_t.cfg"],
 }
-SAMPLE = {"quick": 3500, "thorough": 60000}
+SAMPLE = {"quick": 3000, "thorough": 40000}
 
 
 def _nontrivial(case: dict, v: dict) -> bool:
